@@ -956,6 +956,17 @@ def check_memory_forms(run, ctx):
         a = {'policy': 0, 'limit': 0, 'max_memory': 1, 'ttl': 0}
         key = '%s/insert_with_memory' % flav
         n += 1
+        wrong_subject = []
+        for x in C.scope(fn):
+            for (bi_, si_, op_, ra_, rb_, ea_, eb_, dl_) in C.roles.comparisons(x):
+                if 'MAX_MEM' in (ra_, rb_) and ({ra_, rb_} & {'ENTRY_SIZE', 'ENTRY_SUM'} or any(r and r.startswith('ENTRY_SUM') for r in (ra_, rb_) if r)):
+                    wrong_subject.append((x, bi_, ra_ if ra_ != 'MAX_MEM' else rb_))
+        for (x, bi_, r_) in wrong_subject:
+            run.bad('C05-K1', key + '/measures-entry-not-value', 'a memory test in %s compares max_memory with the estimate of something other than the cached value (%s: the whole entry '
+                    'including its bookkeeping, or another component): the limit is on the total size of the cached *values*, and the tests must measure the same thing' % (fn.name, r_),
+                    site='%s (%s)' % (fn.name, x.loc(bi_)), oracle='estimate_memory of the value component (entry.value / tuple field 0 / the value parameter)')
+        if wrong_subject:
+            continue
         if len(over) != 1:
             run.bad('C05-K1', key + '/unrecognised-form', 'expected one comparison of the new value\'s size with max_memory in %s, found %d' % (fn.name, len(over)), site=fn.name,
                     oracle='oversize test NEW_SIZE > MAX_MEM present')
